@@ -248,12 +248,12 @@ def array_args(rng, mname, live):
     return []
 
 
-def adversarial_array_program(rng):
+def adversarial_array_program(rng, lsb0=False):
     from . import arrayprogs
     from .enc import enc_int
     name, n = rng.choice(arrayprogs.DTYPES)
     items = [arrayprogs.item_value(rng, name, n) for _ in range(rng.randint(0, 4))]
-    calls = [{'op': 'anew', 'rid': 'a', 'sa': [name, 'list'], 'ia': [n, 0], 'va': items}]
+    calls = ([_d.setopt('lsb0', 1)] if lsb0 else []) + [{'op': 'anew', 'rid': 'a', 'sa': [name, 'list'], 'ia': [n, 0], 'va': items}]
     live = [('a', 'Array')]
     for _ in range(rng.randint(5, 12)):
         r = rng.random()
